@@ -17,6 +17,8 @@ import (
 	"govc/engine"
 	"govc/smt"
 
+	"go/types"
+
 	"golang.org/x/tools/go/ssa"
 	"golang.org/x/tools/go/ssa/ssautil"
 )
@@ -29,6 +31,17 @@ type PropCfg struct {
 	NotDecided  string   `json:"not_decided"`
 	Assumptions []string `json:"assumptions"`
 	Level       string   `json:"level"`
+	Struct      []StructCheck `json:"struct"`
+}
+
+// StructCheck: obligations decided from go/types without a solver.
+type StructCheck struct {
+	Kind     string   `json:"kind"`     // "declared-on" | "iface-classified"
+	Pkg      string   `json:"pkg"`      // package path
+	Type     string   `json:"type"`     // type name
+	Methods  []string `json:"methods"`  // declared-on: must be declared on the type itself (not promoted)
+	Mutating []string `json:"mutating"` // iface-classified: every interface method is in one of the two lists
+	ReadOnly []string `json:"readonly"`
 }
 
 type Finding struct {
@@ -218,6 +231,7 @@ func check(argv []string) int {
 			results = append(results, r)
 		}
 	}
+	structRes := runStructChecks(w, cfg.Struct)
 	var all []*engine.Obligation
 	owner := map[*engine.Obligation]*engine.FuncResult{}
 	for _, r := range results {
@@ -338,6 +352,19 @@ func check(argv []string) int {
 		}
 		viols = append(viols, v)
 	}
+	for _, sr := range structRes {
+		nObl++
+		if sr.ok {
+			nOK++
+			byBackend["go/types"]++
+			continue
+		}
+		if _, ok := known[sr.name]; ok {
+			nObl--
+			continue
+		}
+		viols = append(viols, violation{Obl: sr.name, Kind: "struct", Func: sr.name, Status: "failed", Why: sr.why, Text: sr.why})
+	}
 	var outOfReach []string
 	for _, r := range results {
 		if r.OutOfReach != "" {
@@ -381,7 +408,7 @@ func check(argv []string) int {
 		fmt.Printf("  %s %s: %s [%s]\n", v.Pos, v.Kind, v.Text, v.Status)
 		exit = 1
 	}
-	if len(results) == 0 || nObl == 0 {
+	if (len(results) == 0 && len(structRes) == 0) || nObl == 0 {
 		fmt.Printf("VIOLATION property=%s replay=%s no-failing-input-found\n", *prop, "none")
 		fmt.Println("  no obligations generated (vacuous run)")
 		exit = 1
@@ -485,4 +512,71 @@ func writeFail(verif, prop, tier string, seed int, msg string, wall float64) {
 	data, _ := json.MarshalIndent(ev, "", " ")
 	os.WriteFile(filepath.Join(verif, "evidence", prop+".json"), data, 0o644)
 	os.WriteFile(filepath.Join(verif, "evidence", "replay", prop+"_setup.json"), []byte(fmt.Sprintf("{\"obligation\":\"setup\",\"error\":%q}", msg)), 0o644)
+}
+
+type structResult struct {
+	name string
+	ok   bool
+	why  string
+}
+
+func runStructChecks(w *engine.World, checks []StructCheck) []structResult {
+	var out []structResult
+	for _, c := range checks {
+		pkg := w.PPkgs[c.Pkg]
+		if pkg == nil {
+			out = append(out, structResult{fmt.Sprintf("struct/%s.%s/%s", c.Pkg, c.Type, c.Kind), false, "package not loaded"})
+			continue
+		}
+		obj := pkg.Types.Scope().Lookup(c.Type)
+		if obj == nil {
+			out = append(out, structResult{fmt.Sprintf("struct/%s.%s/%s", c.Pkg, c.Type, c.Kind), false, "type not found"})
+			continue
+		}
+		short := c.Pkg[strings.LastIndex(c.Pkg, "/")+1:] + "." + c.Type
+		switch c.Kind {
+		case "declared-on":
+			ms := types.NewMethodSet(types.NewPointer(obj.Type()))
+			for _, m := range c.Methods {
+				name := fmt.Sprintf("struct/%s/declared-on:%s", short, m)
+				var sel *types.Selection
+				for i := 0; i < ms.Len(); i++ {
+					if ms.At(i).Obj().Name() == m {
+						sel = ms.At(i)
+					}
+				}
+				switch {
+				case sel == nil:
+					out = append(out, structResult{name, false, "method " + m + " not in the method set of *" + short})
+				case len(sel.Index()) != 1:
+					out = append(out, structResult{name, false, "method " + m + " of *" + short + " is promoted from an embedded value: requests pass through unfiltered"})
+				default:
+					out = append(out, structResult{name, true, ""})
+				}
+			}
+		case "iface-classified":
+			it, ok := obj.Type().Underlying().(*types.Interface)
+			if !ok {
+				out = append(out, structResult{fmt.Sprintf("struct/%s/iface-classified", short), false, "not an interface"})
+				continue
+			}
+			known := map[string]bool{}
+			for _, m := range c.Mutating {
+				known[m] = true
+			}
+			for _, m := range c.ReadOnly {
+				known[m] = true
+			}
+			for i := 0; i < it.NumMethods(); i++ {
+				m := it.Method(i).Name()
+				name := fmt.Sprintf("struct/%s/classified:%s", short, m)
+				if known[m] {
+					out = append(out, structResult{name, true, ""})
+				} else {
+					out = append(out, structResult{name, false, "interface method " + m + " is not classified as mutating or read-only: the read-only wrappers may pass it through"})
+				}
+			}
+		}
+	}
+	return out
 }
